@@ -614,3 +614,38 @@ def stale_memo_fields(ctx: Ctx, cls):
                     if not resets:
                         out.append((m2, assigns[0], k, f, m))
     return out
+
+
+def fold_strings(ctx: Ctx, e, fi, depth=0):
+    """The set of string constants an expression denotes - literals, tuples / lists / sets / frozensets of them, `+` of
+    such, module-level constants (also imported ones) - or None when it is not such a constant collection."""
+    if e is None or depth > 6:
+        return None
+    if isinstance(e, ast.Constant):
+        return {e.value} if isinstance(e.value, str) else None
+    if isinstance(e, (ast.Tuple, ast.List, ast.Set)):
+        out = set()
+        for x in e.elts:
+            if isinstance(x, ast.Starred):
+                s = fold_strings(ctx, x.value, fi, depth + 1)
+            else:
+                s = fold_strings(ctx, x, fi, depth + 1)
+            if s is None:
+                return None
+            out |= s
+        return out
+    if isinstance(e, ast.BinOp) and isinstance(e.op, (ast.Add, ast.BitOr)):
+        a, b = fold_strings(ctx, e.left, fi, depth + 1), fold_strings(ctx, e.right, fi, depth + 1)
+        return None if a is None or b is None else a | b
+    if isinstance(e, ast.Call) and isinstance(e.func, ast.Name) and e.func.id in ("frozenset", "set", "tuple", "list") and len(e.args) == 1 and not e.keywords:
+        return fold_strings(ctx, e.args[0], fi, depth + 1)
+    if isinstance(e, (ast.Name, ast.Attribute)):
+        mod = fi.module if hasattr(fi, "module") else fi
+        if isinstance(e, ast.Name) and hasattr(fi, "module") and ctx.types.local_bindings(fi, e.id):
+            return None
+        r = ctx.prog.resolve_expr_static(mod, e)
+        if r and r[0] == "const":
+            m2 = r[1]
+            v = m2.consts.get(r[2])
+            return fold_strings(ctx, v, m2, depth + 1) if v is not None else None
+    return None
